@@ -25,7 +25,11 @@ for spid in args:
                 print(sid, "PATCH DOES NOT APPLY", r.stderr[:200]); continue
             t0 = time.time()
             env = dict(os.environ, VERIF_REPO=w)
-            p = subprocess.run(["./check", pid], cwd=V, env=env, capture_output=True, text=True, timeout=1500)
+            try:
+                p = subprocess.run(["./check", pid], cwd=V, env=env, capture_output=True, text=True, timeout=2700)
+            except subprocess.TimeoutExpired:
+                print(sid, "CHECK DID NOT FINISH within 45 min (the check's own watchdog should have ended it)")
+                continue
             lines = [l for l in p.stdout.splitlines() if l.startswith("VIOLATION") or l.startswith("KNOWN-FINDING")]
             viol = [l for l in lines if l.startswith("VIOLATION")]
             replay = None
